@@ -895,8 +895,59 @@ class Program:
             self._callgraph = g
         return self._callgraph
 
+    def _conv_index(self):
+        """(trait short name, self type) -> workspace impl methods, for the std trampolines
+        `str::parse::<T>` -> `<T as FromStr>::from_str`, `T::try_into() -> U` ->
+        `<U as TryFrom<..>>::try_from`, `T::into() -> U` -> `<U as From<..>>::from` (rustc
+        resolves these calls to the blanket impl inside core, which is not walked)."""
+        idx = self.__dict__.get("_convidx")
+        if idx is None:
+            idx = defaultdict(list)
+            rx = re.compile(r"^<(.+) as core::(?:str::traits::(FromStr)|convert::(TryFrom|From)<.*>)>::"
+                            r"(from_str|try_from|from)$")
+            for o in self.by_owner:
+                m = rx.match(o)
+                if m:
+                    idx[(m.group(2) or m.group(3), m.group(1))].append(o)
+            self._convidx = idx
+        return idx
+
+    @staticmethod
+    def _split_gargs(g):
+        g = (g or "").strip()
+        if g.startswith("[") and g.endswith("]"):
+            g = g[1:-1]
+        out, depth, cur = [], 0, []
+        for ch in g:
+            if ch in "<([":
+                depth += 1
+            elif ch in ">)]":
+                depth -= 1
+            if ch == "," and depth == 0:
+                out.append("".join(cur).strip())
+                cur = []
+            else:
+                cur.append(ch)
+        if cur:
+            out.append("".join(cur).strip())
+        return out
+
+    def trampoline_targets(self, c):
+        n = c.resolved or c.name or ""
+        ga = self._split_gargs(c.gargs)
+        idx = self._conv_index()
+        if n.endswith("core::str::<impl str>::parse") and ga:
+            return idx.get(("FromStr", ga[0]), [])
+        if re.search(r"(core::convert::TryInto::try_into|TryInto<.*>>::try_into)$", n) and len(ga) >= 2:
+            return idx.get(("TryFrom", ga[1]), [])
+        if re.search(r"(core::convert::Into::into|Into<.*>>::into)$", n) and len(ga) >= 2:
+            return idx.get(("From", ga[1]), [])
+        return []
+
     def resolve_targets(self, c):
         out = []
+        for t in self.trampoline_targets(c):
+            out.append(t)
         if c.resolved and c.resolved in self.by_owner:
             out.append(c.resolved)
         elif c.resolved:
